@@ -224,15 +224,37 @@ def shapes_and_aliases(ctx, chk):
                 chk.hold("R10.2", "threshold_at_%s:%s" % (metric, method), "threshold_at_%s(r) is elementwise in r" % metric)
             else:
                 chk.unknown("R10.2", "threshold_at_%s applies %s to the target" % (metric, [b for b in bads if b][:1]))
-    # scalar reduction present: scalar input -> plain scalar
+    # scalar reduction present: scalar input -> plain scalar (looked for in the function and the repository helpers it calls)
     import ast as _ast
+
+    def has_item(fi, depth=0, seen=None):
+        seen = seen or set()
+        if fi.qualname in seen or depth > 3:
+            return False
+        seen.add(fi.qualname)
+        for n_ in _ast.walk(fi.node):
+            if isinstance(n_, _ast.Attribute) and n_.attr == "item":
+                return True
+            if isinstance(n_, _ast.Call) and isinstance(n_.func, _ast.Name) and n_.func.id == "float":
+                return True
+        for n_ in _ast.walk(fi.node):
+            if isinstance(n_, _ast.Call):
+                tgt = None
+                if isinstance(n_.func, _ast.Name):
+                    r = ctx.db.resolve_name(fi.module, n_.func.id)
+                    tgt = r if hasattr(r, "node") and hasattr(r, "qualname") and not hasattr(r, "methods") else None
+                elif isinstance(n_.func, _ast.Attribute) and isinstance(n_.func.value, _ast.Name) and n_.func.value.id in ("self", "cls") and fi.cls is not None:
+                    tgt = fi.cls.find_method(n_.func.attr)
+                if tgt is not None and has_item(tgt, depth + 1, seen):
+                    return True
+        return False
+
     for q in [SCORES + "._threshold_at_ratio"] + ["score_analysis.metrics." + m for m in ("tpr", "tnr", "fpr", "fnr", "topr", "tonr", "ppv", "npv", "accuracy")]:
         f = ctx.db.function(q)
-        has_item = any(isinstance(n_, _ast.Attribute) and n_.attr == "item" for n_ in _ast.walk(f.node))
-        if has_item:
-            chk.hold("R10.2", "scalar:" + q.split(".")[-1], "0-d result reduced with .item()", nontrivial=False)
+        if has_item(f):
+            chk.hold("R10.2", "scalar:" + q.split(".")[-1], "0-d result reduced to a plain scalar (.item())", nontrivial=False)
         else:
-            chk.violation("R10.2", q, "scalar-reduction", "no .item() reduction", "scalar input yields a plain Python scalar", ctx.where(q))
+            chk.unknown("R10.2", "%s: no scalar reduction (.item()) found in the function or its helpers" % q)
     # ---------------- R10.3 rate aliases are pure delegations
     for alias, tgt in ALIASES.items():
         seen = []
